@@ -35,6 +35,7 @@ def run(ctx):
     ctx.floor("R4a", "stream decoders", 11, len(stream_decs))
     from .common import import_length_predictor_agreement
     import_length_predictor_agreement(ctx, "R4g")
+    r4k_request_complete_means_connect(ctx)
     # functions reached from stream decoders only
     reach = {}
     for b in stream_decs:
@@ -448,3 +449,129 @@ def run(ctx):
                        "once the salt is recorded the activation can only end with data or an error" if not bad else
                        "the salt is recorded in the replay cache on a path that can still answer Ok(None): the next read re-parses the same handshake from the start and rejects it as a replayed salt")
     ctx.floor("R4e", "replay-cache insert call sites in stream decoders", 1, n_ins)
+
+
+def r4k_request_complete_means_connect(ctx, rule="R4k"):
+    """R4k: a server codec is a state machine; its initial arm parses the request (credential, command, target). A *stream* request is complete
+    when its last header byte has arrived - with or without payload behind it - so the activation that moves the codec out of its initial
+    state into the state that relays stream payload must hand out the connect item (target address + whatever payload there is, possibly
+    empty). If it can answer `Ok(None)` instead, the target is withheld until the peer sends more (a client that waits for the target to
+    speak first never does) - or, where the later state only knows how to emit relay items, the connect item is never produced at all and the
+    flow dies with `expect a connect message`: one cut of the byte stream between the request and the first payload byte breaks the flow.
+    Judged on the flat body of every server `Decoder::decode`: state writes in the initial arm whose new state's arm can build the
+    stream-relay item, against the need-more answers (and self-recursive results) that lie on a path with that write."""
+    from .common import inbound_enum, _local_is_some
+    from ..mir import op_place
+    prog = ctx.prog
+    decs = [b for b in prog.methods_of_trait_impls("Decoder", "decode") if b.defp.startswith("octo_squirrel_server")]
+    ctx.floor(rule, "server codecs (Decoder impls)", 3, len(decs))
+    n_writes = 0
+    for b0 in decs:
+        fb = prog.flat(b0.defp, stop=lambda cb: not cb.defp.startswith("octo_squirrel_server"), key="same-crate")
+        # the state switch: first switch on the discriminant of an enum-typed field of self
+        sw = None
+        for blk in fb.rpo():
+            t = fb.term(blk)
+            p = op_place(t["d"]) if t and t["k"] == "switch" else None
+            if p is None:
+                continue
+            for d in fb.defs().get(p[0], []):
+                if d[0] == "assign" and d[3]["rv"]["k"] == "discr":
+                    pl = d[3]["rv"]["p"]
+                    fs = [e[2] for e in pl[1] if e[0] == "field"]
+                    if pl[0] == 1 and fs and len([e for e in pl[1] if e[0] in ("field", "downcast")]) == 1:
+                        sw = (blk, t, fs[0])
+            if sw:
+                break
+        if sw is None:
+            ctx.anchor_lost(rule, f"state switch of {last_seg(b0.impl_self_def or b0.defp)}")
+            continue
+        sblk, st, field = sw
+        item_variants = {"ConnectTcp", "RelayTcp", "RelayUdp"}
+        arm = {v: x for v, x in st["arms"]}
+        init_t = arm.get(0, st["otherwise"])
+        region0 = {x for x in fb.rpo() if fb.dominates(init_t, x)}
+
+        def arm_region(v):
+            tgt = arm.get(v, st["otherwise"])
+            return {x for x in fb.rpo() if fb.dominates(tgt, x)} if tgt != init_t else set()
+
+        def builds_stream_relay(region):
+            for x in region:
+                for s_ in fb.stmts(x):
+                    if s_["k"] == "assign" and s_["rv"]["k"] == "agg" and s_["rv"].get("ak") == "adt" and s_["rv"].get("variant") == "RelayTcp":
+                        return True
+            return False
+        # need-more answers: Ok(None) built into (a value that reaches) the return place, and results of a recursive call to the decoder itself
+        rty = fb.local_ty(0)
+        nones = []
+        for x in fb.rpo():
+            for s_ in fb.stmts(x):
+                if s_["k"] == "assign" and not s_["p"][1] and s_["rv"]["k"] == "agg" and s_["rv"].get("variant") == "Ok" and s_["rv"].get("def", "").endswith("result::Result") and s_["rv"]["ops"]:
+                    dst = s_["p"][0]
+                    if dst != 0 and (fb.local_ty(dst) != rty or 0 not in fb.slice_fwd([dst])[0]):
+                        continue
+                    q = op_place(s_["rv"]["ops"][0])
+                    if q is None or not _local_is_some(fb, q[0]):
+                        # not provably Some: None, or an Option handed on from elsewhere
+                        is_none = q is not None and any(d[0] == "assign" and d[3]["rv"]["k"] == "agg" and d[3]["rv"].get("variant") == "None" for d in fb.defs().get(q[0], []))
+                        if is_none:
+                            nones.append((x, "Ok(None)"))
+            t = fb.term(x)
+            if t and t["k"] == "call":
+                tb = prog.body(Callee(t["f"]).target)
+                if tb is not None and tb.defp == b0.defp and (t["dest"][0] == 0 or 0 in fb.slice_fwd([t["dest"][0]])[0]):
+                    nones.append((x, "the result of calling itself again (which answers need-more on an empty buffer)"))
+        for x in sorted(region0):
+            for s_ in fb.stmts(x):
+                if s_["k"] not in ("assign", "setdiscr") or s_["p"][0] != 1:
+                    continue
+                fs = [e[2] for e in s_["p"][1] if e[0] == "field"]
+                if not fs or fs[0] != field or len([e for e in s_["p"][1] if e[0] in ("field", "downcast")]) != 1:
+                    continue
+                # which state(s) does it install?
+                vs = set()
+                if s_["k"] == "setdiscr":
+                    vs.add(s_["v"])
+                else:
+                    rv = s_["rv"]
+                    srcs = [rv] if rv["k"] == "agg" else []
+                    q = op_place(rv["op"]) if rv["k"] == "use" else None
+                    if q is not None:
+                        srcs += [d[3]["rv"] for l_ in fb.slice_back([q[0]], stop_call=lambda c_: True)[0] for d in fb.defs().get(l_, []) if d[0] == "assign" and d[3]["rv"]["k"] == "agg"]
+                    for r_ in srcs:
+                        if r_.get("ak") == "adt" and "vidx" in r_ and fb.local_ty(0) and r_.get("def") and last_seg(r_["def"]) in fb.local_ty(1) + " " + " ".join(l.get("ty", {}).get("s", "") for l in fb.locals[:1]):
+                            vs.add(r_["vidx"])
+                        elif r_.get("ak") == "adt" and "vidx" in r_:
+                            vs.add(r_["vidx"])
+                vs.discard(0)
+                if not any(builds_stream_relay(arm_region(v)) for v in vs):
+                    continue
+                n_writes += 1
+
+                def datagram_branch(n_):
+                    """the need-more answer belongs to a branch that only ever hands out datagram items (a datagram request has no connect step: its
+                    first packet *is* its first item, and waiting for that packet to be complete is a real need-more)"""
+                    idom = fb.idom()
+                    d = n_
+                    for _ in range(200):
+                        built = set()
+                        for y in fb.rpo():
+                            if fb.dominates(d, y):
+                                for s2 in fb.stmts(y):
+                                    if s2["k"] == "assign" and s2["rv"]["k"] == "agg" and s2["rv"].get("ak") == "adt" and s2["rv"].get("variant") in item_variants:
+                                        built.add(s2["rv"]["variant"])
+                        if built:
+                            return all("Udp" in v for v in built)
+                        nd = idom.get(d)
+                        if nd is None or nd == d:
+                            return False
+                        d = nd
+                    return False
+                bad = [(n_, how) for (n_, how) in nones if n_ in region0 and (fb.can_reach(x, n_) or fb.can_reach(n_, x)) and not datagram_branch(n_)]
+                ctx.ob(rule, b0.defp, "request-complete-means-connect", loc(s_.get("sp") or fb.sp), not bad,
+                       "the activation that leaves the initial state for the stream-relay state hands out the connect item" if not bad else
+                       f"the codec leaves its initial state for the state that relays stream payload on a path that answers {bad[0][1]}: the request is complete (its target is "
+                       "decoded) but no connect item is handed out - the target is not dialled until the peer sends more, and where the later state can only emit relay items "
+                       "the connect item is never produced (`expect a connect message`): a cut of the stream between the request and its first payload byte breaks the flow")
+    ctx.floor(rule, "initial-state exits into a stream-relay state", 3, n_writes)
